@@ -101,6 +101,9 @@ func Shrink(c *Case, class string) *Case {
 	return &best
 }
 
+// MaxCases, if positive, stops a shard early (debugging aid).
+var MaxCases int
+
 // CurrentFile, if set, receives the descriptor of the case about to run.
 var CurrentFile string
 
@@ -276,7 +279,12 @@ func RunProperty(col *core.Collector, prop, tier string, seed uint64, shard, nsh
 	}
 	var total Coverage
 	otherClasses := map[string]int{}
+	done := 0
 	for i := shard; i < n; i += nshards {
+		done++
+		if MaxCases > 0 && done > MaxCases {
+			break
+		}
 		prof := Profiles[spec.Profiles[i%len(spec.Profiles)]]
 		rng := core.NewRng(core.Derive(seed, 99, uint64(i)))
 		nops := spec.MinOps + rng.Intn(spec.MaxOps-spec.MinOps+1)
